@@ -65,6 +65,18 @@ CHECKS = {
              "Each row (message, encoding, phase, sample when small, decryption) is decided by TLC: decryption equals the message exactly and is the nearest-message encoding of the observed phase.",
         note="Keys/seeds are sampled (seeded from VERIF_SEED). TLWE/TGSW run at N = 1024 only (the FFT back-ends hard-wire it). The TLWE/TGSW model-level theorem lives in RingScheme (C09).",
         design="§6 C03"),
+    "C01": dict(
+        category="model_checking",
+        technique="TLA+ spec MachineP (phase-level register machine over the gate table of boot-gates.cpp, independent truth tables, explicit caps A1/A2) model-checked by TLC; "
+                  "every gate call of the real library with real keys recorded and validated step by step by TLC (Trace_MachineP)",
+        text="TLC computes all reachable states of the 3-register machine under all 14 gates, all aliasing patterns, extreme admissible input errors (+-3/64, which contains the property's +-1/32), extreme modulus-switch "
+             "rounding and extreme output errors, and checks that every register decrypts to the plaintext interpreter's bit (Correct) and stays admissible (closure). Wrong-constant designs and a relaxed cap are rejected. "
+             "The real gate API is then run, for both parameter sets in both orders in one process, on every gate x every input tuple x six kinds of admissible inputs (fresh, bootstrapped, injected error +-(1/32 - 16 sigma) "
+             "in all sign patterns) plus aliased calls; each call is one event carrying the phases of all registers under the secret key, and TLC accepts the trace only if every event is a MachineP step "
+             "(sign consistent with the rounded linear combination, |output error| < 3/64, bystanders bit-identical, generator untouched) with Correct/Admissible in every state.",
+        note="A1/A2 are assumptions of the model, monitored on every recorded execution. Keys are sampled (VERIF_SEED). Quick: spqlios-fma optim (full), nayuki-portable optim and spqlios-fma debug (reduced); thorough: 5 back-ends x 2 builds x 3 seeds. "
+             "The bit-exact reduced-size algorithm (MachineC) is covered under C04/C09.",
+        design="§6 C01"),
 }
 
 NOT_YET = {}
